@@ -3,6 +3,7 @@ package main
 import (
 	"fmt"
 	"math/rand"
+	"sort"
 	"strings"
 )
 
@@ -106,6 +107,34 @@ func genC09(e *emitter, tier string, seed int64) {
 		"self":      {{"a.p", "use(\"a.p\")\n"}},
 		"bad-leaf":  {{"a.p", "p(0)\n\nuse(\"b.p\")\n"}, {"b.p", "p(0)\n  use(\"c.p\")\n"}, {"c.p", "p(1)\n\n\n   use(\"x.p\")\n"}},
 	}
+	// use() calls in every statement and expression context (loops with conditional and unconditional
+	// break/continue before the call, nested blocks, operands, arguments): the call is registered, linked and
+	// bound wherever it stands
+	ctxs := []string{
+		"@\n", "if true {\n  @\n}\n", "if false {\n} elif true {\n  @\n} else {\n}\n", "if false {\n} else {\n  if true {\n    @\n  }\n}\n",
+		"for i = 0; i < 3; i = i + 1 {\n  if i == 1 {\n    break\n  }\n  @\n}\n",
+		"for x in [1, 2] {\n  if x == 1 {\n    continue\n  }\n  @\n}\n",
+		"for x in [1] {\n  break\n  @\n}\n", "for x in [1] {\n  continue\n  @\n}\n",
+		"for x in [1] {\n  for y in [2] {\n    break\n  }\n  @\n}\n",
+		"for x in [1] {\n  for y in [2] {\n    if true {\n      continue\n    }\n    @\n  }\n}\n",
+		"for x in [1] {\n  if true {\n    break\n  } else {\n    @\n  }\n}\n",
+		"for x in [1] {\n  if x == 2 {\n    break\n  }\n}\n@\n",
+		"for i = 0; i < 1; i = i + 1 {\n  @\n}\n", "for x in [1] {\n  @\n  break\n}\n",
+		"x = [1, @]\n", "p(@)\n", "p(a = @)\n", "x = {\"k\": @}\n", "if @ {\n  p(1)\n}\n", "for x in [1] {\n  if true {\n    break\n  }\n  y = [@]\n}\n",
+		"p(1)\n\n  @\n@\n", "for x in [1] {\n  if true {\n    continue\n  }\n  @\n  @\n}\n",
+	}
+	for ci, c := range ctxs {
+		for _, t := range []string{"b.p", "x.p", "a.p", "c.p"} {
+			ss := []scriptSrc{{"a.p", strings.ReplaceAll(c, "@", fmt.Sprintf("use(%q)", t))}, {"b.p", "p(1)\n"}, {"c.p", "p(2)\nuse(\"a.p\")\n"}}
+			for _, o := range perms([]string{"a.p", "b.p", "c.p"}) {
+				reps := 0
+				if ci%3 == 0 {
+					reps = 3
+				}
+				emitLoad(e, loadCase{Scripts: ss, Order: o, Reps: reps}, "use-context", strings.ReplaceAll(c, "\n", "; ")+" <= "+t+" || order "+strings.Join(o, ","))
+			}
+		}
+	}
 	for k, ss := range named {
 		names := []string{}
 		for _, s := range ss {
@@ -131,6 +160,8 @@ func genC08(e *emitter, tier string, seed int64) {
 		"for i = @; i < 2; i = i + 1 {\n  p(i)\n}\n", "for i = 0; @; i = i + 1 {\n  break\n}\n", "for i = 0; i < 2; i = @ {\n  p(i)\n}\n", "for i = 0; i < 2; i = i + 1 {\n  x = @\n}\n",
 		"for x in @ {\n  p(x)\n}\n", "for x in [1] {\n  y = @\n}\n", "for x in [1] {\n  for y in [@] {\n    p(y)\n  }\n}\n",
 		"#\n", "if true {\n  #\n}\n", "if false {\n} else {\n  #\n}\n", "for x in [1] {\n  p(x)\n}\n#\n", "for x in [1] {\n  if true {\n    #\n  }\n}\n",
+		"for x in [1] {\n  if true {\n    break\n  }\n  #\n}\n", "for i = 0; i < 2; i = i + 1 {\n  if i == 1 {\n    continue\n  }\n  x = @\n}\n", "for x in [1] {\n  break\n  #\n}\n",
+		"for x in [1] {\n  for y in [2] {\n    break\n  }\n  #\n}\n", "for x in [1] {\n  if false {\n  } else {\n    continue\n  }\n  y = [@]\n}\n", "for x in [1] {\n  if x == 2 {\n    break\n  }\n}\nx = @\n",
 		"for i = 0; i < 1; i = i + 1 {\n  #\n}\n", "for i = 0; i < 1; i = i + 1 {\n}\n#\n", "for x in [1] {\n  for y in [2] {\n  }\n  #\n}\n", "if true {\n  for x in [1] {\n  }\n  #\n}\n",
 	}
 	// offenders (expressions) and statement offenders
@@ -157,6 +188,30 @@ func genC08(e *emitter, tier string, seed int64) {
 			}
 			src := strings.Replace(b, mark, o, 1)
 			emitLoad(e, loadCase{Scripts: []scriptSrc{{"a.p", src}}, Order: []string{"a.p"}}, "inject", strings.ReplaceAll(b, "\n", "; ")+" <= "+o)
+		}
+	}
+	// every builtin with 0..4 arguments of every kind (the shape rules depend on count and kind jointly)
+	{
+		call, _ := fnTables()
+		names := []string{}
+		for n := range call {
+			names = append(names, n)
+		}
+		sort.Strings(names)
+		atoms := []string{"k", "k2", "_", "\"s\"", "\"int\"", "\"%{WORD:w}\"", "\"+8\"", "1", "1.5", "true", "nil", "[1]", "{\"a\": 1}", "a.b", "len(k)", "k + 1", "-1", "\"/a/b\"", "\"ms\"", "\"RFC3339\"", "x = 1"}
+		M := 2500
+		if tier == "thorough" {
+			M = 60000
+		}
+		for i := 0; i < M; i++ {
+			n := names[rng.Intn(len(names))]
+			args := []string{}
+			for k := rng.Intn(5); k > 0; k-- {
+				args = append(args, atoms[rng.Intn(len(atoms))])
+			}
+			callSrc := n + "(" + strings.Join(args, ", ") + ")"
+			src := []string{"@\n", "x = [@]\n", "if true {\n  @\n}\n", "for i = 0; i < 1; i = i + 1 {\n  if i == 0 {\n    continue\n  }\n  @\n}\n"}[rng.Intn(4)]
+			emitLoad(e, loadCase{Scripts: []scriptSrc{{"a.p", strings.Replace(src, "@", callSrc, 1)}}, Order: []string{"a.p"}}, "builtin-arg-shapes", callSrc)
 		}
 	}
 	// asymmetric function tables: a name known to the checker table only, or to the call table only
